@@ -37,14 +37,16 @@ TEXT = {
         "text": "PARTIAL. Theorems over the per-evaluation machine and the controller: a child finishing in time is never killed; timeout = killpg + waitpid + rejected; every other ending (abort, dropped future) kills the group; every started "
                 "evaluation is accounted for at the return (processed, failed, or dropped - and the dropped list is exactly what is in flight then). The claim about real processes rests on OS assumptions and on running the real binary: every "
                 "termination cause x concurrency x child behaviour (slow, forks background processes, ignores SIGTERM, fails), with the set of siblings in flight at the end chosen through release files, then a /proc scan. Known finding D7 "
-                "(background process of a normally exited child) is reported as KNOWN-FINDING.",
+                "(background process of a normally exited child) is reported as KNOWN-FINDING."
+                " Families include group members that ignore SIGTERM, a leader that exits while its group keeps the output pipe open (the time limit must still kill the group), and a helper that left the group with setsid but holds the pipe (the evaluation must still end at its time limit); survivors are judged by process group.",
         "design_ref": "7 (C07), 3.5, 9 (D3, D7)", "note": PROC_NOTE,
         "technique": "Lean 4 proof over a process-evaluation state machine composed with the controller invariant + process-level differential runs with /proc scan",
     },
     "C14": {
         "text": "PARTIAL for the scale clause. Theorems: C14_counts(_always) (report counts = numbers of accepted/rejected items, for every event list, also on failure), C14_items (every record belongs to a started evaluation with that id and seed), "
                 "C14_file (after any record sequence the writer holds one row per record and the best-seen file holds a minimum-objective record), C14_meta_probs (adaptive probabilities in [0,1] under FL-mul-sign). The CSV, best_seen.json and summary "
-                "of real runs are parsed and compared with the children's own log and with the writer model; probabilities and scale of every in-run record are checked.",
+                "of real runs are parsed and compared with the children's own log and with the writer model; probabilities and scale of every in-run record are checked."
+                " C14_drained / C14_drained_step (Launch.lean): the report writer is drained before sync_launch returns a result, Ok or Err. K-run reads the files back after failed runs as well.",
         "design_ref": "7 (C14), 4 (L7)", "note": PROC_NOTE,
         "technique": "Lean 4 invariant proofs (controller items, fold over the item stream) + process-level and in-run differential checks",
     },
@@ -58,7 +60,8 @@ TEXT = {
     "C16": {
         "text": "PARTIAL (glue compared, not proved). Theorems over the child-result schema, argv construction and the CLI decision function: accepted iff exit 0 and a finite objFuncVal; null/absent = rejection; anything else fails; invalid options/inputs are "
                 "rejected before launch; an existing output directory without --force is refused untouched; success = exit 0 + one stdout line (+ files); failing child = non-zero exit, no stdout, diagnostic files. The real binary is compared with "
-                "these decisions on generated option combinations, hostile keys, user argument lists with spaces/quotes/non-UTF-8 bytes/leading dashes, and every child result encoding.",
+                "these decisions on generated option combinations, hostile keys, user argument lists with spaces/quotes/non-UTF-8 bytes/leading dashes, and every child result encoding."
+                " C16_criteria_conflict / C16_criteria_budget (termination::compile: conflicts are exactly repeated kinds; the budget in force is the one given), checked against sync_launch::launch on generated criteria lists (K-run).",
         "design_ref": "7 (C16), 4 (L8, L9)", "note": PROC_NOTE,
         "technique": "Lean 4 decision-table theorems + process-level differential runs of the real binary",
     },
@@ -66,7 +69,8 @@ TEXT = {
         "text": "Theorems C01_init / C01_guess / C01_cross / C01_mut (closure of the initial value, the guess reader and both operators' acceptors under conformance, for every spec, value, nesting and probability class) and "
                 "C01_run / C01_report (controller + core model with V := VNode: every start action and the reported best-seen carry a conforming value, for every event list, sample size and concurrency, given that each offspring "
                 "is one the operators can produce). The real operators are checked to stay inside the acceptors in direct operation sequences (K-ops) and on every in-run call of the real AlgoContext (K-algo, hook H3); "
-                "conf is evaluated on every real output.",
+                "conf is evaluated on every real output."
+                " Also tied to the parser: C01_accepted_wf (every accepted document is well-formed) and, for every accepted rule-breaking document or attribute soup, a mutation walk from its initial value whose steps are checked for conformance (K-spec).",
         "design_ref": "7 (C01), 3.3, 4 (L4, L5), 9 (D4, D8, D9)", "note": OPS_NOTE,
         "technique": "Lean 4 mutual structural induction (operator closure) + invariant over all event sequences + differential correspondence of operators and in-run calls",
     },
@@ -80,7 +84,8 @@ TEXT = {
     "C12": {
         "text": "Theorems C12_prov / C12_single / C12_same over the crossover acceptor, for every well-formed spec, every ordered list of conforming parents and every probability class: each accepted offspring satisfies the "
                 "provenance relation prov (defined without reference to probabilities: every leaf, option, presence and map key comes from a parent at the same position, sub-structures are combined only among parents sharing it); "
-                "one parent or identical parents give an identical offspring. The real crossover is checked to produce only accepted offspring, and prov is evaluated on every real offspring as well.",
+                "one parent or identical parents give an identical offspring. The real crossover is checked to produce only accepted offspring, and prov is evaluated on every real offspring as well."
+                " C12_keys_refine: the code-shaped algorithm model of select_anon_map_keys (shuffle, forced keys below minSize, per-key parent selection, cut at maxSize) refines the acceptor's keysOk for every shuffle and selection sequence - so the acceptor is not tighter than the code at the most intricate step.",
         "design_ref": "7 (C12), 3.3, 4 (L4)", "note": OPS_NOTE,
         "technique": "Lean 4 mutual structural induction over spec/value families (acceptor refinement) + differential correspondence of the operators",
     },
@@ -94,7 +99,8 @@ TEXT = {
     "C11": {
         "text": "Theorems over the codec model for every spec/value/document: C11_reject (whatever fromJson accepts conforms - so wrong type, unknown/missing key, out-of-bounds number, wrong array length, map size "
                 "outside bounds, unknown option are rejected; fromJson is total), C11_rt_json (value -> JSON -> value -> same JSON), C11_rt_value / C11_same (exact value for unambiguous specs; the spec's own initial value read back "
-                "as itself), C11_before (a rejected guess returns before any start). The model is compared with the real reader/writer on every run; the driver also evaluates conformance of everything the real reader accepts.",
+                "as itself), C11_before (a rejected guess returns before any start). The model is compared with the real reader/writer on every run; the driver also evaluates conformance of everything the real reader accepts."
+                " Twin runs: supplying the spec's own initial value as the guess gives bit-for-bit the same run as supplying none (maps whose initial and maximum sizes fall into different hash-table size classes included). A guess built from a conforming value by one defect must be rejected.",
         "design_ref": "7 (C11), 4 (L1, L2), 9 (D8, D9)", "note": CODEC_NOTE,
         "technique": "Lean 4 structural-induction proofs over mutual spec/value/JSON families + differential correspondence of the codec",
     },
@@ -102,13 +108,15 @@ TEXT = {
         "text": "Theorems C02_member / C02_min1 / C02_nonempty1 over the controller+algorithm-core model, for every event list: the reported best-seen was handed out as some individual, has exactly sample-size accepted results "
                 "and its objective is their summary; at sample size 1 it is a minimum over all accepted evaluations (eviction at the population cap, rejections, completion order and termination cause included) and a run with an accepted "
                 "evaluation never ends with NoIndividuals. Proof: invariant run_popInv (sorted population, ids, stored samples = accepted results, head = minimum of the history). The model is compared with the real controller/core on "
-                "generated schedules incl. long histories beyond the cap of 100; the driver also checks the report against the minimum of the harness's own log.",
+                "generated schedules incl. long histories beyond the cap of 100; the driver also checks the report against the minimum of the harness's own log."
+                " K-pop drives the real AlgoContext directly and compares the whole ranked population (ids, ordering keys, states, stored samples) with the L5 model after every operation; raw predicates: best = minimum of accepted (sample size 1), best = mean of exactly sample-size results of one individual (sample size > 1).",
         "design_ref": "7 (C02), 4 (L5, L6)", "note": CTL_NOTE + " Float arithmetic: only FL-mean1 is assumed; the mean for sample size > 1 is an observed value.",
         "technique": "Lean 4 invariant proof (ranked population with eviction) over all event sequences + differential correspondence",
     },
     "C08": {
         "text": "Theorems C08_seeds / C08_same / C08_count / C08_ids / C08_first over the controller+core model, for every event list: seeds are exactly 0,1,2,..; one id always carries one parameter set; an id is handed out at most "
-                "sample-size times; ids in the population and in flight are pairwise distinct; the first hand-out is (seed 0, id 0, initial value). The driver checks the same predicates on what the real controller did.",
+                "sample-size times; ids in the population and in flight are pairwise distinct; the first hand-out is (seed 0, id 0, initial value). The driver checks the same predicates on what the real controller did."
+                " K-pop compares hand-outs (id, value, stored samples) and population ids after every operation of the real AlgoContext; K-ctl includes a root-optional spec whose valid explicit guess is null.",
         "design_ref": "7 (C08)", "note": CTL_NOTE,
         "technique": "Lean 4 invariant proof over all event sequences + differential correspondence",
     },
@@ -117,27 +125,31 @@ TEXT = {
                 "the broadcast is not repeated; after the return nothing happens; the step that reaches the target returns in that step with a best <= target and drops what is in flight; "
                 "the run is over exactly when nothing is in flight; what is returned is the outcome of the final core state (results arriving while draining included). The model is compared with the real "
                 "controller under Terminate at every position, evaluations that honour or ignore the abort, and a watchdog that turns a non-returning controller into a reported hang. "
-                "Partial: the Terminate/time-limit/SIGINT plumbing of async_launch/sync_launch and wall-clock 'as soon as' are exercised, not proved.",
+                "Partial: the Terminate/time-limit/SIGINT plumbing of async_launch/sync_launch and wall-clock 'as soon as' are exercised, not proved."
+                " L7 is now modelled too (Launch.lean): C04_one_abort_request / C04_terminate_first / C04_terminate_again (however many Terminate commands arrive the controller gets one abort request and a later command changes nothing) and C04_time_limit_once. Raw predicates on the implementation: told-to-abort, no start after a stop, target on sample means, a terminated run returns its best although an evaluation fails while draining.",
         "design_ref": "7 (C04), 3.4, 9 (D12, KF1)", "note": CTL_NOTE,
         "technique": "Lean 4 step lemmas and invariants over all event sequences of the controller state machine + differential correspondence with hang watchdog",
     },
     "C06": {
         "text": "Theorem C06_first: for every prefix schedule, a failure taken while no abort is latched is recorded for good, broadcasts the abort in that step, no evaluation is started in that step or after, "
                 "and every return of every continuation is exactly Err(that failure); C06_after_abort_keeps_error covers the 'before any termination request' clause. Compared with the real controller with failures and "
-                "non-finite values at random positions, second failures, later results below the target. Partial: the mapping of child exit status/unparsable output to errors (process.rs) is covered by C16's process-level checks.",
+                "non-finite values at random positions, second failures, later results below the target. Partial: the mapping of child exit status/unparsable output to errors (process.rs) is covered by C16's process-level checks."
+                " Raw predicate: siblings in flight are told to abort. K-proc's failure family (non-zero exit with valid output, garbage, unknown fields, empty, out-of-range number) is part of this check.",
         "design_ref": "7 (C06)", "note": CTL_NOTE,
         "technique": "Lean 4 proof over all continuations of the controller state machine + differential correspondence",
     },
     "C03": {
         "text": "Theorems C03_le / C03_zero / C03_starts_eq_pushed: in the controller model, for every event list (all completion orders, outcomes, abort points), "
                 "any concurrency, sample size and random decisions, the number of evaluations started never exceeds the budget. Proof by invariant over the event list; "
-                "the model is checked against the real controller on generated schedules on every run.",
+                "the model is checked against the real controller on generated schedules on every run."
+                " C03_exact / C03_exact_report: if nothing else ends the run it starts exactly N evaluations and the report counts sum to N; the same is evaluated on the raw observations of K-ctl and of K-run (whole runs through sync_launch, threaded and current-thread launcher).",
         "design_ref": "7 (C03), 4 (L6), 5.1 (K-ctl)", "note": CTL_NOTE,
         "technique": "Lean 4 invariant proof over all event sequences of a controller state machine + differential correspondence against the real controller",
     },
     "C05": {
         "text": "Theorems C05_le / C05_inflight_seeds_nodup: in the controller model the number of evaluations in flight never exceeds num_concurrent, for every event list; "
-                "the harness additionally measures the real overlap and duplicate in-flight individuals inside its objective function.",
+                "the harness additionally measures the real overlap and duplicate in-flight individuals inside its objective function."
+                " C05_unique (ids of population and in-flight individuals pairwise distinct), C05_exact (work conservation). Raw predicates: after every round exactly min(num_concurrent, remaining budget) evaluations are in progress (K-ctl); threaded launcher reaches min(num_concurrent, budget) evaluations in progress at once, also above the number of cores (K-run barrier family); at the instant a child starts, live processes of other unfinished evaluations + 1 <= num_concurrent, read from the process table by the child itself (K-proc).",
         "design_ref": "7 (C05), 4 (L6), 5.1 (K-ctl)", "note": CTL_NOTE,
         "technique": "Lean 4 invariant proof over all event sequences + differential correspondence against the real controller",
     },
